@@ -193,6 +193,9 @@ func (c *descCtx) d(v ssa.Value) string {
 	case *ssa.Call:
 		return c.call(x.Common())
 	case *ssa.Phi:
+		if isCountingIndex(x) {
+			return "idx(range)"
+		}
 		if c.visited[x] {
 			return "↺"
 		}
@@ -253,12 +256,79 @@ func (c *descCtx) cellOr(v ssa.Value) string {
 // isRangeIndex recognises the index expression go/ssa generates for
 // "for i, v := range slice": (phi #rangeindex) + 1.
 func isRangeIndex(v ssa.Value) bool {
+	if ph, ok := v.(*ssa.Phi); ok {
+		return isCountingIndex(ph)
+	}
 	b, ok := v.(*ssa.BinOp)
 	if !ok || b.Op != token.ADD {
 		return false
 	}
 	ph, ok := b.X.(*ssa.Phi)
 	return ok && ph.Comment == "rangeindex"
+}
+
+// isCountingIndex recognises the hand-written form of the same loop,
+// "for i := 0; i < len(xs); i++": a two-edge phi that starts at the constant 0,
+// is advanced by exactly +1, and is tested "< len(...)" by the loop's branch.
+// It is described exactly like the index of a range loop, so a rule does not
+// depend on which of the two spellings the source uses.
+func isCountingIndex(ph *ssa.Phi) bool {
+	if len(ph.Edges) != 2 {
+		return false
+	}
+	zero, step := false, false
+	for _, e := range ph.Edges {
+		switch x := e.(type) {
+		case *ssa.Const:
+			if x.Value != nil && x.Value.Kind() == constant.Int {
+				if n, ok := constant.Int64Val(x.Value); ok && n == 0 {
+					zero = true
+				}
+			}
+		case *ssa.BinOp:
+			if x.Op == token.ADD && x.X == ssa.Value(ph) {
+				if k, ok := x.Y.(*ssa.Const); ok && k.Value != nil && k.Value.Kind() == constant.Int {
+					if n, ok := constant.Int64Val(k.Value); ok && n == 1 {
+						step = true
+					}
+				}
+			}
+		}
+	}
+	if !zero || !step || ph.Referrers() == nil {
+		return false
+	}
+	for _, r := range *ph.Referrers() {
+		cmp, ok := r.(*ssa.BinOp)
+		if !ok {
+			continue
+		}
+		var bound ssa.Value
+		switch {
+		case cmp.Op == token.LSS && cmp.X == ssa.Value(ph):
+			bound = cmp.Y
+		case cmp.Op == token.GTR && cmp.Y == ssa.Value(ph):
+			bound = cmp.X
+		default:
+			continue
+		}
+		call, ok := bound.(*ssa.Call)
+		if !ok {
+			continue
+		}
+		if b, ok := call.Call.Value.(*ssa.Builtin); !ok || b.Name() != "len" {
+			continue
+		}
+		if cmp.Referrers() == nil {
+			continue
+		}
+		for _, rr := range *cmp.Referrers() {
+			if _, ok := rr.(*ssa.If); ok && rr.Block() == ph.Block() {
+				return true
+			}
+		}
+	}
+	return false
 }
 
 func (c *descCtx) args(vs []ssa.Value) string {
@@ -277,7 +347,7 @@ func (c *descCtx) call(cc *ssa.CallCommon) string {
 	switch f := cc.Value.(type) {
 	case *ssa.Function:
 		if f.Signature.Recv() != nil && len(cc.Args) > 0 {
-			return c.d(cc.Args[0]) + "." + f.Name() + "(" + c.args(cc.Args[1:]) + ")"
+			return c.d(cc.Args[0]) + "." + p.fnShort(f) + "(" + c.args(cc.Args[1:]) + ")"
 		}
 		return p.CalleeNameOfFunc(f) + "(" + c.args(cc.Args) + ")"
 	case *ssa.Builtin:
@@ -295,7 +365,7 @@ func fieldName(t types.Type, idx int) string {
 		t = pt.Elem()
 	}
 	if st, ok := t.Underlying().(*types.Struct); ok && idx < st.NumFields() {
-		return st.Field(idx).Name()
+		return fieldDisplayName(st.Field(idx))
 	}
 	return fmt.Sprintf("f%d", idx)
 }
@@ -619,4 +689,12 @@ func (p *Program) ifaceOfMethod(m *types.Func, recvType types.Type) string {
 		return s
 	}
 	return p.TypeStr(recvType)
+}
+
+// fnShort is the function's short name, or its baseline name when it was renamed.
+func (p *Program) fnShort(f *ssa.Function) string {
+	if n, ok := p.shortName[f]; ok {
+		return n
+	}
+	return f.Name()
 }
